@@ -384,7 +384,7 @@ fn main() {
         ctx.cov("rule", "a case = (statement template, row values with the failing value at position k of n, start graph, index/constraint setup), all distinct; non-trivial when the engine returned Err (or panicked), i.e. the before/after comparison actually ran");
         ctx.cov("outcomes", json!(outcomes));
         ctx.cov("exhaustive", true);
-        ctx.cov("bounds", format!("n <= {max_rows} rows, failure at every position k <= n; templates: unwind_create_div, unwind_create_path_div, unwind_merge_set_div, unwind_match_set_div, unwind_create_unique, match_set_div, match_set_unique, match_create_edge_div"));
+        ctx.cov("bounds", format!("n <= {max_rows} rows, failure at every position k <= n; templates: unwind_create_div, unwind_create_path_div, unwind_merge_set_div, unwind_match_set_div, unwind_create_unique, match_set_div, match_set_unique, match_create_edge_div; multi_unique_* (label :W with six unique constraints; SET label / SET labels / CREATE / CREATE path / MERGE / SET += / SET = / SET items colliding on each key in turn, and MATCH (n:T) SET n:W over all rows)"));
         for c in cs.iter().step_by((cs.len() / 4).max(1)).take(4) {
             ctx.sample(json!({"template": c.template, "statement": c.text(), "start": c.start, "setup": c.setup, "fail_at_row": c.fail_at + 1}));
         }
